@@ -228,6 +228,37 @@ def rule_every_construction(ctx):
               "construction does not validate the selectors of every granular marking", file=root.module.relpath,
               line=root.node.lineno, function=root.qualname,
               expected="for m in self.get('granular_markings', []): validate(self, m.get('selectors'))", found=short(root.node, 200))
+    # ... for EVERY class whose table defines granular_markings: the guards above the loop are evaluated per class
+    from ..typemodel import get_model
+    tm = get_model(prog)
+    with_slot = []
+    for (_v, _n), rec in sorted(tm.classes.items()):
+        if any(sl[0] == "granular_markings" for sl in (rec.get("slots") or [])):
+            pc = prog.classes.get(rec["id"])
+            if pc is not None:
+                with_slot.append(pc)
+    if len(with_slot) < 50:
+        raise AnalysisError("fewer than 50 classes with a granular_markings slot found (%d): type model out of date" % len(with_slot))
+    for lp in loops:
+        for tt, pol, _ in guard_chain(lp):
+            t_ = norm(tt)
+            skipped = []
+            if t_ == "'granular_markings' in self._properties":
+                skipped = [] if pol else with_slot
+            elif isinstance(tt, ast.Call) and call_name(tt) == "isinstance" and len(tt.args) == 2 and norm(tt.args[0]) == "self":
+                wanted = tt.args[1].elts if isinstance(tt.args[1], ast.Tuple) else [tt.args[1]]
+                wcls = [prog.deref(prog.resolve_expr(root.scope, w)) for w in wanted]
+                if any(not hasattr(w, "mro") for w in wcls):
+                    raise AnalysisError("guard of the granular-marking validation not understood: %s" % t_)
+                skipped = [c for c in with_slot if any(w in c.mro for w in wcls) != pol]
+            else:
+                raise AnalysisError("guard of the granular-marking validation not understood: %s" % t_)
+            run.check(not skipped, R, key(root.module.relpath, root.qualname, "covers-every-type-with-granular-markings"),
+                      "the construction-time selector validation is guarded by a test that is false for %d of the %d types whose "
+                      "table defines granular_markings (e.g. %s): an invalid selector on those types is accepted at construction "
+                      "and parse" % (len(skipped), len(with_slot), ", ".join(sorted({c.qualname for c in skipped})[:6])),
+                      file=root.module.relpath, line=lp.lineno, function=root.qualname,
+                      expected="a guard that holds for every class with the slot ('granular_markings' in self._properties)", found=t_)
     from .C02 import is_super_call
     n = 0
     for fi in prog.functions.values():
